@@ -148,7 +148,7 @@ def build(unit):
             try:
                 src, masked = load(d["file"])
                 if is_slice:
-                    s, e = extract.extract_slice(src, masked, d["fn"], d["start"], d["end"], exact=d.get("exact") == "1", end_last=d.get("endlast") == "1")
+                    s, e = extract.extract_slice(src, masked, d["fn"], d["start"], d["end"], exact=d.get("exact") == "1", end_last=d.get("endlast") == "1", stmts=int(d.get("stmts", "1")))
                     body = src[s:e]
                     where = f"{d['file']}:{extract.line_of(src, s)}-{extract.line_of(src, e)} slice of {d['fn']}"
                     body = extract.transform(body, exlog["rules_applied"], where)
